@@ -88,7 +88,7 @@ def main():
         "engines": [{"name": "vcheck", "path": "vcheck", "serves_properties": [c["property_id"] for c in checks],
                      "kind_free_text": "Hypothesis 6.168 property-based testing, exhaustive small-domain enumeration and atheris 3.1 (libFuzzer) coverage-guided campaigns over the same generators; 16 process shards, explicit oracles per property (vlib/, checks/)"}],
         "checks": checks,
-        "notes": "Genuine defects found and repaired are listed in known_findings.json (status fixed, with the fix commit) and DESIGN.md section 4; regress/ holds their minimal reproductions, replayed first by every run.  One open finding (F13, property C08: the join drops a pair that interleaves with the other part) is reported as a KNOWN-FINDING line by ./vcheck C08, which exits 0 unless a violation with another signature appears.",
+        "notes": "Genuine defects found and repaired are listed in known_findings.json (status fixed, with the fix commit) and DESIGN.md section 4; regress/ holds their minimal reproductions, replayed first by every run.  There is no open finding at present.",
         "not_applicable": na,
     }
     with open(os.path.join(HERE, "MANIFEST.json"), "w") as f:
